@@ -87,7 +87,9 @@ func bndProgAddr(i int) common.Address {
 // ---- the opcode table: byte, operand roles (top of the stack first), what it leaves
 //
 //	roles: moff len doff (N = memory size / length of the data the opcode reads), gas (N = 2300), value (N = T's
-//	balance), word (N = 256), addr (address classes), jdest (jump destination classes)
+//	balance), word (N = 256), addr (address classes), jdest (jump destination classes),
+//	tailop tailm padr clen (no stack operands: the shape of the CODE the opcode executes in - it ends with PUSH<tailop>
+//	of whose data tailm bytes are there, its length is padr modulo 8, "long" = 40 000 bytes more)
 type bndOpInfo struct {
 	code  byte
 	roles []string
@@ -120,8 +122,8 @@ var bndOps = map[string]bndOpInfo{
 	"CALLCODE":       {0xf2, rl("gas addr value moff len moff len"), "push", "mem", true},
 	"DELEGATECALL":   {0xf4, rl("gas addr moff len moff len"), "push", "mem", true},
 	"STATICCALL":     {0xfa, rl("gas addr moff len moff len"), "push", "mem", true},
-	"JUMP":           {0x56, rl("jdest"), "jump", "code", false},
-	"JUMPI":          {0x57, rl("jdest word"), "jump", "code", false},
+	"JUMP":           {0x56, rl("jdest tailop tailm padr clen"), "jump", "code", false},
+	"JUMPI":          {0x57, rl("jdest word tailop tailm padr clen"), "jump", "code", false},
 	"SLOAD":          {0x54, rl("word"), "push", "", false},
 	"SSTORE":         {0x55, rl("word word"), "none", "", false},
 	"BALANCE":        {0x31, rl("addr"), "push", "", false},
@@ -347,13 +349,58 @@ func (p *bndProg) baseN(info bndOpInfo, i int, env bndEnv) int {
 	return 0
 }
 
-func (p *bndProg) pushJdest(a *asm, c string, nt int, dest, pdata int) error {
+// bndTail: the code shape of a tuple (the four classes behind the stack operands); ok = the code has a tail
+type bndTail struct {
+	p, m, r int
+	long    bool
+	ok      bool
+}
+
+const bndLongFill = 40000
+
+func (p *bndProg) tail() (bndTail, error) {
+	info := bndOps[p.t.Op]
+	for i, r := range info.roles {
+		if r != "tailop" {
+			continue
+		}
+		c := p.t.Cls[i : i+4]
+		if c[0] == "none" {
+			return bndTail{}, nil
+		}
+		t := bndTail{ok: true, long: c[3] == "long"}
+		var err error
+		if t.p, err = strconv.Atoi(c[0]); err != nil || t.p < 1 || t.p > 32 {
+			return t, fmt.Errorf("tail class %q", c[0])
+		}
+		switch c[1] {
+		case "0":
+		case "1":
+			t.m = 1
+		case "P-1":
+			t.m = t.p - 1
+		case "P":
+			t.m = t.p
+		default:
+			return t, fmt.Errorf("tail data class %q", c[1])
+		}
+		if t.r, err = strconv.Atoi(c[2]); err != nil || t.r < 0 || t.r > 7 {
+			return t, fmt.Errorf("length class %q", c[2])
+		}
+		return t, nil
+	}
+	return bndTail{}, nil
+}
+
+func (p *bndProg) pushJdest(a *asm, c string, nt int, dest, pdata, tdata int) error {
 	var v *big.Int
 	w := 2
 	d := big.NewInt(int64(dest))
 	switch c {
 	case "dest":
 		v = d
+	case "taildata":
+		v = big.NewInt(int64(tdata))
 	case "dest+1":
 		v = big.NewInt(int64(dest + 1))
 	case "pushdata":
@@ -378,7 +425,7 @@ func (p *bndProg) pushJdest(a *asm, c string, nt int, dest, pdata int) error {
 
 // assemble builds T; nt (code length), dest / pdata (positions) are only known after a first pass - all pushes have
 // a fixed width, so the second pass has the same layout.
-func (p *bndProg) assemble(env bndEnv, dest, pdata int) (code []byte, labels map[string]int, err error) {
+func (p *bndProg) assemble(env bndEnv, dest, pdata, tdata int) (code []byte, labels map[string]int, err error) {
 	info, ok := bndOps[p.t.Op]
 	if !ok {
 		return nil, nil, fmt.Errorf("unknown opcode %s", p.t.Op)
@@ -406,8 +453,9 @@ func (p *bndProg) assemble(env bndEnv, dest, pdata int) (code []byte, labels map
 				w = len(b)
 			}
 			p.pushFixed(a, new(big.Int).SetBytes(b), w)
+		case "tailop", "tailm", "padr", "clen": // the shape of the code, not an operand on the stack
 		case "jdest":
-			if err := p.pushJdest(a, c, nt, dest, pdata); err != nil {
+			if err := p.pushJdest(a, c, nt, dest, pdata, tdata); err != nil {
 				return nil, nil, err
 			}
 		default:
@@ -435,6 +483,32 @@ func (p *bndProg) assemble(env bndEnv, dest, pdata int) (code []byte, labels map
 		a.op(opDUP1).op(opDUP1).push(32).op(opADD).op(opMSTORE)
 		a.push(64).op(opADD).push(0).op(opRETURN)
 	}
+	// the shape of the code: filler (never executed) up to the demanded length modulo 8, then a PUSH<p> with m of its
+	// p data bytes (each a JUMPDEST byte) - the end of the code cuts the rest off
+	t, err := p.tail()
+	if err != nil {
+		return nil, nil, err
+	}
+	if t.ok {
+		n := len(a.buf) + 1 + t.m
+		if t.long {
+			n += bndLongFill
+		}
+		fill := ((t.r-n)%8 + 8) % 8
+		if t.long {
+			fill += bndLongFill
+		}
+		for i := 0; i < fill; i++ {
+			a.op(opINVALID)
+		}
+		a.op(byte(opPUSH1 + t.p - 1)).mark("tdata")
+		for i := 0; i < t.m; i++ {
+			a.op(opJUMPDEST)
+		}
+		if len(a.buf)%8 != t.r {
+			return nil, nil, fmt.Errorf("code shape: length %d is not %d modulo 8", len(a.buf), t.r)
+		}
+	}
 	code = a.bytes()
 	return code, a.labels, nil
 }
@@ -445,7 +519,7 @@ func (p *bndProg) build() error {
 	if p.t.RD {
 		p.env.RDN = bndRD
 	}
-	c0, l0, err := p.assemble(bndEnv{MS: 0x7fff, NC: 0x7fff, RDN: 0x7fff, NT: 0x7fff, NX: 0x7fff, Bal: 0x7fff}, 0, 0)
+	c0, l0, err := p.assemble(bndEnv{MS: 0x7fff, NC: 0x7fff, RDN: 0x7fff, NT: 0x7fff, NX: 0x7fff, Bal: 0x7fff}, 0, 0, 0)
 	if err != nil {
 		return err
 	}
@@ -454,7 +528,10 @@ func (p *bndProg) build() error {
 	if info.src == "ext" {
 		p.env.NX = p.extLen(p.t.Cls[0], nt)
 	}
-	c1, l1, err := p.assemble(p.env, l0["dest"], l0["pdata"])
+	if nt > 0xfffe {
+		return fmt.Errorf("code of %d bytes: positions do not fit the two bytes of the destination operands", nt)
+	}
+	c1, l1, err := p.assemble(p.env, l0["dest"], l0["pdata"], l0["tdata"])
 	if err != nil {
 		return err
 	}
